@@ -23,6 +23,13 @@
 //!                  way to obtain a value (constructors, views into shared
 //!                  buffers, clone, parent/join results, serde); every law
 //!                  must answer as for the from_str operands.
+//!  8. rsync.scale / https.scale : SCALE dimension - every measured length (authority,
+//!                  module, one segment, number of segments) at 2^k-1, 2^k, 2^k+1 for
+//!                  k = 6..=17, and (authority, module) pairs whose SUM crosses 2^8 /
+//!                  2^16 while each part stays below; groups with flips, child, parent
+//!                  and short URIs; all pair / join / unary laws.
+//!  "equal => same hash" is judged under three hashers everywhere: std DefaultHasher,
+//!  an FxHash-style hasher, and a digest of the exact sequence of Hasher::write calls.
 //!
 //! The reference model works on the *text* only (documented grammar, split on
 //! '/', ASCII lower-casing of scheme and authority); it never calls the
@@ -116,7 +123,23 @@ fn permitted(b: u8) -> bool {
 }
 
 fn lower(b: &[u8]) -> Vec<u8> { b.iter().map(|c| c.to_ascii_lowercase()).collect() }
-fn s(b: &[u8]) -> String { String::from_utf8_lossy(b).into_owned() }
+/// Renders octets for witnesses. Texts of more than 200 octets have their runs of the alternating
+/// two-letter pattern (>= 16 octets, same case) written as {x:N} = N octets x,y,x,y,… starting with
+/// x (y = the other letter of a/b, A/B), and runs of "a/" as {a/:N}; everything else verbatim.
+fn s(b: &[u8]) -> String {
+    if b.len() <= 200 { return String::from_utf8_lossy(b).into_owned() }
+    let mut out = String::new(); let mut i = 0;
+    let other = |c: u8| match c { b'a' => b'b', b'b' => b'a', b'A' => b'B', b'B' => b'A', _ => 0 };
+    while i < b.len() {
+        let mut j = i;
+        if other(b[i]) != 0 { j = i + 1; while j < b.len() && b[j] == other(b[j - 1]) { j += 1 } }
+        if j - i >= 16 { out.push_str(&format!("{{{}:{}}}", b[i] as char, j - i)); i = j; continue }
+        let mut k = i; while k + 1 < b.len() && b[k] == b'a' && b[k + 1] == b'/' { k += 2 }
+        if k - i >= 16 { out.push_str(&format!("{{a/:{}}}", k - i)); i = k; continue }
+        out.push_str(&String::from_utf8_lossy(&b[i..i + 1])); i += 1;
+    }
+    out
+}
 
 #[derive(Clone, Copy, Debug)]
 struct RParts<'a> { scheme: &'a [u8], authority: &'a [u8], module: &'a [u8], path: &'a [u8] }
@@ -177,7 +200,38 @@ fn beneath(a_prefix: &[u8], a_dir: &[u8], b_prefix: &[u8], b_path: &[u8]) -> boo
     a_prefix == b_prefix && b_path.len() > a_dir.len() && b_path.starts_with(a_dir)
 }
 
-fn h<T: Hash>(t: &T) -> u64 { let mut x = DefaultHasher::new(); t.hash(&mut x); x.finish() }
+/// An FxHash-style hasher: every write call is consumed in words of its own chunking, so the
+/// result depends on how the input is split across calls.
+struct FxLike(u64);
+impl FxLike { fn add(&mut self, w: u64) { self.0 = (self.0.rotate_left(5) ^ w).wrapping_mul(0x51_7c_c1_b7_27_22_0a_95) } }
+impl Hasher for FxLike {
+    fn write(&mut self, mut b: &[u8]) {
+        while b.len() >= 8 { self.add(u64::from_le_bytes(b[..8].try_into().unwrap())); b = &b[8..] }
+        if b.len() >= 4 { self.add(u32::from_le_bytes(b[..4].try_into().unwrap()) as u64); b = &b[4..] }
+        for &x in b { self.add(x as u64) }
+    }
+    fn finish(&self) -> u64 { self.0 }
+}
+/// A digest of the exact SEQUENCE OF WRITE CALLS (length of every call, then its octets): two
+/// values feed a Hasher identically iff these digests agree (up to a 64-bit FNV collision).
+struct Calls(u64);
+impl Calls { fn byte(&mut self, x: u8) { self.0 = (self.0 ^ x as u64).wrapping_mul(0x100_0000_01b3) } }
+impl Hasher for Calls {
+    fn write(&mut self, b: &[u8]) { for x in (b.len() as u64).to_le_bytes() { self.byte(x) } for &x in b { self.byte(x) } }
+    fn finish(&self) -> u64 { self.0 }
+}
+/// (std DefaultHasher, FxHash-style, digest of the write-call sequence)
+type H3 = (u64, u64, u64);
+fn h<T: Hash>(t: &T) -> H3 {
+    let mut x = DefaultHasher::new(); t.hash(&mut x);
+    let mut y = FxLike(0); t.hash(&mut y);
+    let mut z = Calls(0xcbf2_9ce4_8422_2325); t.hash(&mut z);
+    (x.finish(), y.finish(), z.finish())
+}
+/// Which of the three hashers tell two values apart (for equal values none may).
+fn hash_diff(a: H3, b: H3) -> Option<&'static str> {
+    if a.0 != b.0 { Some("std DefaultHasher") } else if a.2 != b.2 { Some("the sequence of Hasher::write calls (their lengths and octets)") } else if a.1 != b.1 { Some("an FxHash-style hasher") } else { None }
+}
 
 // ------------------------------------------------------- validity of a value
 
@@ -194,7 +248,7 @@ fn valid_rsync(r: &Rsync) -> Result<(), String> {
     }
     let back = Rsync::from_slice(&text).map_err(|e| format!("result {:?} does not re-parse: {e}", s(&text)))?;
     if !(back == *r) || !(*r == back) { return Err(format!("re-parsed {:?} is not == the result", s(&text))) }
-    if h(&back) != h(r) { return Err(format!("re-parsed {:?} hashes differently", s(&text))) }
+    if let Some(which) = hash_diff(h(&back), h(r)) { return Err(format!("re-parsed {:?} differs from the result under {which}", s(&text))) }
     if back.authority() != r.authority() || back.module_name() != r.module_name() || back.path() != r.path() {
         return Err(format!("re-parsed {:?}: authority/module/path {:?}/{:?}/{:?} vs result's {:?}/{:?}/{:?}", s(&text),
             back.authority(), back.module_name(), back.path(), r.authority(), r.module_name(), r.path()));
@@ -210,7 +264,7 @@ fn valid_https(r: &Https) -> Result<(), String> {
         return Err(format!("result {:?} reports authority {:?} but re-parses with authority {:?}", s(&text), r.authority(), back.authority()));
     }
     if !(back == *r) || !(*r == back) { return Err(format!("re-parsed {:?} is not == the result", s(&text))) }
-    if h(&back) != h(r) { return Err(format!("re-parsed {:?} hashes differently", s(&text))) }
+    if let Some(which) = hash_diff(h(&back), h(r)) { return Err(format!("re-parsed {:?} differs from the result under {which}", s(&text))) }
     if r.authority().as_bytes() != m.authority || r.path().as_bytes() != m.path || back.path() != r.path() {
         return Err(format!("accessors of {:?} say authority={:?} path={:?}, text says {:?} {:?}", s(&text), r.authority(), r.path(), s(m.authority), s(m.path)));
     }
@@ -345,14 +399,14 @@ fn unary_https(fl: &mut Fails, text: &[u8], u: &Https, wit: &dyn Fn() -> String,
 
 // ------------------------------------------------------------- stored URIs
 
-struct RU { uri: Rsync, text: Vec<u8>, pkey: Vec<u8>, path: Vec<u8>, dir: Vec<u8>, hash: u64, rep: usize }
-struct HU { uri: Https, text: Vec<u8>, pkey: Vec<u8>, auth_lc: Vec<u8>, path: Vec<u8>, hash: u64 }
+struct RU { uri: Rsync, text: Vec<u8>, pkey: Vec<u8>, path: Vec<u8>, dir: Vec<u8>, hash: H3, rep: usize }
+struct HU { uri: Https, text: Vec<u8>, pkey: Vec<u8>, auth_lc: Vec<u8>, path: Vec<u8>, hash: H3 }
 
 fn mk_ru(texts: &[Vec<u8>]) -> Vec<RU> {
     let mut v: Vec<RU> = texts.iter().map(|t| {
         let uri = Rsync::from_slice(t).expect("stored URI was accepted before");
         let m = model_rsync(t).expect("stored URI passed the model before");
-        RU { hash: guard(|| h(&uri)).unwrap_or(0), uri, text: t.clone(), pkey: rsync_prefix_key(&m), path: m.path.to_vec(), dir: rsync_dir(m.path), rep: 0 }
+        RU { hash: guard(|| h(&uri)).unwrap_or((0, 0, 0)), uri, text: t.clone(), pkey: rsync_prefix_key(&m), path: m.path.to_vec(), dir: rsync_dir(m.path), rep: 0 }
     }).collect();
     // class representative = first member (enumeration order) with the same key
     let mut first: BTreeMap<(Vec<u8>, Vec<u8>), usize> = BTreeMap::new();
@@ -363,7 +417,7 @@ fn mk_hu(texts: &[Vec<u8>]) -> Vec<HU> {
     texts.iter().map(|t| {
         let uri = Https::from_slice(t).expect("stored URI was accepted before");
         let m = model_https(t).expect("stored URI passed the model before");
-        HU { hash: guard(|| h(&uri)).unwrap_or(0), uri, text: t.clone(), pkey: https_prefix_key(&m), auth_lc: lower(m.authority), path: m.path.to_vec() }
+        HU { hash: guard(|| h(&uri)).unwrap_or((0, 0, 0)), uri, text: t.clone(), pkey: https_prefix_key(&m), auth_lc: lower(m.authority), path: m.path.to_vec() }
     }).collect()
 }
 
@@ -413,7 +467,7 @@ fn rsync_pairs(ctx: &Ctx, sp: &Space, ru: &[RU]) {
             let m_par = beneath(&a.pkey, &a.dir, &b.pkey, &b.path);
             if eq != m_eq { fl.fail("C12.rsync.eq.model", &wit, || format!("== is {eq}, text model (scheme+authority case-insensitive, rest exact) says {m_eq}")) }
             if eq != eq_rev { fl.fail("C12.rsync.eq.symmetric", &wit, || format!("a==b is {eq}, b==a is {eq_rev}")) }
-            if eq && a.hash != b.hash { fl.fail("C12.rsync.eq.hash", &wit, || "equal URIs hash differently".into()) }
+            if eq { if let Some(which) = hash_diff(a.hash, b.hash) { fl.fail(if which.starts_with("std") { "C12.rsync.eq.hash" } else { "C12.rsync.eq.hash.calls" }, &wit, || format!("equal URIs differ under {which}")) } }
             let rel_empty = rel == Some("");
             if rel_empty != m_slash_eq {
                 fl.fail("C12.rsync.relative_to.empty", &wit, || format!("relative_to = {rel:?}; equal up to one trailing slash: {m_slash_eq}"));
@@ -456,7 +510,7 @@ fn https_pairs(ctx: &Ctx, sp: &Space, hu: &[HU]) {
             let m_eq = a.pkey == b.pkey && a.path == b.path;
             if eq != m_eq { fl.fail("C12.https.eq.model", &wit, || format!("== is {eq}, text model says {m_eq}")) }
             if eq != eq_rev { fl.fail("C12.https.eq.symmetric", &wit, || format!("a==b is {eq}, b==a is {eq_rev}")) }
-            if eq && a.hash != b.hash { fl.fail("C12.https.eq.hash", &wit, || "equal URIs hash differently".into()) }
+            if eq { if let Some(which) = hash_diff(a.hash, b.hash) { fl.fail(if which.starts_with("std") { "C12.https.eq.hash" } else { "C12.https.eq.hash.calls" }, &wit, || format!("equal URIs differ under {which}")) } }
             if eqa != (a.auth_lc == b.auth_lc) { fl.fail("C12.https.eq_authority", &wit, || format!("eq_authority = {eqa}")) }
             if i != j && (m_eq || a.auth_lc == b.auth_lc) { nt += 1 }
             if eq { if i == j { c_ident += 1 } else { c_eq += 1 } } else if eqa { c_auth += 1 } else { c_uneq += 1 }
@@ -579,12 +633,12 @@ fn main() {
     let t0 = std::time::Instant::now();
     let ctx = Ctx::new("C12", "exploration");
     ctx.assume("the grammar in the doc comments of src/uri.rs (permitted characters; rsync://authority/module/path with non-empty authority and module, no empty or dot segments; https://authority[/path]) is the specification");
-    ctx.assume("std::hash::DefaultHasher::new() is deterministic; a property-level hash disagreement would show with any hasher");
+    ctx.assume("equal values must feed a Hasher the same sequence of write calls; this is judged with std DefaultHasher, an FxHash-style hasher that is sensitive to call chunking, and a digest of the call sequence itself (lengths and octets of every write)");
 
     // bounds per tier (tail lengths over the 7-symbol alphabet)
     let max_tail: u32 = ctx.tier.pick(7, 9);          // parse space
     let pair_r: usize = ctx.tier.pick(6, 7);           // rsync pairs
-    let pair_h: usize = ctx.tier.pick(5, 6);           // https pairs
+    let pair_h: usize = ctx.tier.pick(4, 6);           // https pairs
     let join_r: usize = ctx.tier.pick(5, 6);           // rsync join bases
     let join_h: usize = ctx.tier.pick(4, 5);           // https join bases
     let arg_len: u32 = ctx.tier.pick(4, 5);            // join arguments
@@ -968,7 +1022,7 @@ fn main() {
     {
         let texts = upto(&r_by_len, form_r);
         let n = texts.len();
-        type Obs = (String, String, String, String, u64, Option<String>, Option<String>, String);
+        type Obs = (String, String, String, String, H3, Option<String>, Option<String>, String);
         let observe = |u: &Rsync| -> Obs { (u.as_str().to_string(), u.authority().to_string(), u.module_name().to_string(), u.path().to_string(), h(u),
             u.parent().map(|p| p.to_string()), u.join(b"x/y").ok().map(|p| p.to_string()), serde_json::to_string(u).unwrap_or_default()) };
         let forms_of = |t: &[u8]| -> Vec<(&'static str, Rsync)> {
@@ -1078,7 +1132,7 @@ fn main() {
     {
         let texts = upto(&h_by_len, form_h);
         let n = texts.len();
-        type Obs = (String, String, String, u64, Option<String>, Option<String>, String);
+        type Obs = (String, String, String, H3, Option<String>, Option<String>, String);
         let observe = |u: &Https| -> Obs { (u.as_str().to_string(), u.authority().to_string(), u.path().to_string(), h(u),
             u.parent().map(|p| p.to_string()), u.join(b"x/y").ok().map(|p| p.to_string()), serde_json::to_string(u).unwrap_or_default()) };
         let forms_of = |t: &[u8]| -> Vec<(&'static str, Https)> {
@@ -1178,6 +1232,114 @@ fn main() {
         sp.set("texts", json!(n)); sp.set("forms_beyond_from_str", json!(form_count)); sp.set("tail_length", json!(form_h));
         sp.sample_str(|| "a=https://a/ab b=https://a/a [views of one buffer from its start] : == must be false".into());
         sp.done(true, &format!("{n} texts (tail length <= {form_h}) in up to 13 forms each: all ordered pairs of texts x all form pairs; shared-memory constructions (2 kinds of views of one buffer, parent() chain, clone) for every (text, valid prefix of it) with tails up to the longer stored length, both operand orders"));
+        lap(&t0, &sp.name);
+    }
+
+    // ------------------------------------------------------------- 8. scale
+    // SCALE dimension (house rule): every length that the library measures is taken
+    // through the neighbourhoods k-1, k, k+1 of the powers of two up to 2^17, for every
+    // component alone and for combinations in which each part is below a threshold but
+    // an index derived from their SUM is above it (u8 / u16 offsets).
+    let pow_max: u32 = 17;
+    let scale_lengths: Vec<usize> = (6..=pow_max).flat_map(|k| { let p = 1usize << k; [p - 1, p, p + 1] }).collect();
+    let seg_run = |n: usize| -> Vec<u8> { let mut v = Vec::with_capacity(2 * n); for i in 0..n { v.push(b'a'); if i + 1 < n { v.push(b'/') } } v };
+    // (authority length, module length) pairs whose sum crosses 2^8 and 2^16 (with the fixed
+    // offsets 8/9/10 of "rsync://", and the two separators), in three splits each
+    let mut sum_splits: Vec<(usize, usize)> = vec![(40000, 30000), (65527, 1), (32767, 32767), (65535, 65535), (65535, 1), (1, 65535), (65536, 65536), (32768, 32768)];
+    for edge in [1usize << 8, 1 << 16] { for sum in edge - 14..=edge + 2 { for (a, m) in [(sum / 2, sum - sum / 2), (1, sum - 1), (sum - 1, 1)] { if a > 0 && m > 0 { sum_splits.push((a, m)) } } } }
+    sum_splits.sort(); sum_splits.dedup();
+    let short_r: Vec<Vec<u8>> = ["rsync://h/m/", "rsync://h/m/d/f", "RSYNC://H/m/d/f", "rsync://h/M/d/f", "rsync://a/m/d/f", "rsync://ab/ab/ab", "rsync://h/m/d/", "rsync://h/m/d"].iter().map(|x| x.as_bytes().to_vec()).collect();
+    let sp = ctx.space("rsync.scale",
+        "rsync URIs whose authority, module name, single path segment or number of one-letter path segments is 2^k-1, 2^k, 2^k+1 for k = 6..=17, and (authority, module) length pairs whose sum runs through 2^8-14..=2^8+2 and 2^16-14..=2^16+2 in three splits plus (40000,30000), (65527,1), (32767,32767), (65535,65535), (65536,65536): each such URI with a scheme flip, case flips at the first / middle / last octet of the long component(s), a child, its parent and 8 short URIs forms one group; unary oracles on every member, all ordered pairs within the group (==, three hashers, relative_to, is_parent_of against the text model), joins with short arguments and with an argument as long as the component; non-trivial = ordered pairs of different members + successful non-empty joins");
+    {
+        let mut big: Vec<(String, Vec<u8>, Vec<usize>, usize)> = Vec::new();   // (label, text, flip positions, arg length)
+        let cat = |parts: &[&[u8]]| -> Vec<u8> { parts.concat() };
+        for &l in &scale_lengths {
+            let p = pattern(l, false);
+            big.push((format!("authority={l}"), cat(&[b"rsync://", &p, b"/m/d/f"]), vec![8, 8 + l / 2, 8 + l - 1], l));
+            big.push((format!("module={l}"), cat(&[b"rsync://h/", &p, b"/d/f"]), vec![10, 10 + l / 2, 10 + l - 1], l));
+            big.push((format!("segment={l}"), cat(&[b"rsync://h/m/", &p]), vec![12, 12 + l / 2, 12 + l - 1], l));
+            big.push((format!("segments={l}"), cat(&[b"rsync://h/m/", &seg_run(l)]), vec![12, 12 + 2 * (l / 2), 12 + 2 * (l - 1)], 3));
+        }
+        for &(a, m) in &sum_splits {
+            big.push((format!("authority={a} module={m}"), cat(&[b"rsync://", &pattern(a, false), b"/", &pattern(m, false), b"/d/f"]), vec![8, 8 + a - 1, 9 + a, 9 + a + m - 1], 3));
+        }
+        let mut n_members = 0u64;
+        for (_label, base, flips, arg_l) in &big {
+            let mut texts: Vec<Vec<u8>> = vec![base.clone()];
+            { let mut v = base.clone(); v[0] = b'R'; texts.push(v) }
+            for &i in flips { if let Some(v) = flip(base, i) { texts.push(v) } }
+            { let mut c = base.clone(); c.extend_from_slice(b"/zz"); texts.push(c) }
+            if let Some(cutp) = base.iter().rposition(|&b| b == b'/') { let par = base[..cutp + 1].to_vec(); if model_rsync(&par).is_ok() { texts.push(par) } }
+            texts.extend(short_r.iter().cloned());
+            { let mut seen = std::collections::BTreeSet::new(); texts.retain(|x| seen.insert(x.clone())); }
+            let mut fl = Fails::new(); let mut oc: Oc = BTreeMap::new(); let mut ok = Vec::new();
+            for t in &texts {
+                let wit = || format!("text={:?}", s(t));
+                sp.eval();
+                match guard(|| Rsync::from_slice(t)) {
+                    Err(p) => fl.fail("C12.rsync.parse.nopanic", &wit, || p),
+                    Ok(Err(e)) => { bump(&mut oc, "large-uri-rejected");
+                        // the grammar knows no length limit; a parser that refuses a long URI is stricter (counted), but it
+                        // must then refuse it whatever the case of its letters
+                        let _ = e; }
+                    Ok(Ok(u)) => { bump(&mut oc, "large-uri-accepted"); unary_rsync(&mut fl, t, &u, &wit, &mut oc); if model_rsync(t).is_ok() { ok.push(t.clone()) } }
+                }
+            }
+            fl.flush(&ctx); sp.merge_outcomes(&oc);
+            let ru = match guard(|| mk_ru(&ok)) { Ok(r) => r, Err(p) => { ctx.fail("C12.rsync.pair.nopanic", format!("group of text={:?}", s(base)), p); continue } };
+            rsync_pairs(&ctx, &sp, &ru);
+            let mut args: Vec<Vec<u8>> = vec![Vec::new(), b"x".to_vec(), b"x/".to_vec(), b"ab/cd".to_vec()];
+            if *arg_l > 3 { args.push(pattern(*arg_l, false)); args.push(seg_run(*arg_l / 2 + 1)) }
+            rsync_joins(&ctx, &sp, &ru, &args);
+            n_members += ru.len() as u64;
+        }
+        sp.set("groups", json!(big.len())); sp.set("members", json!(n_members)); sp.set("lengths", json!(scale_lengths)); sp.set("sum_splits", json!(sum_splits.len()));
+        sp.sample_str(|| "rsync://{a:40000}/{a:30000}/d/f : module_start 40009, path_start 70010 (each part below 2^16, the offsets not)".into());
+        sp.done(true, &format!("{} groups: 4 quantities x lengths 2^k-1..2^k+1 (k = 6..=17) + {} (authority, module) sum splits; all ordered pairs and joins within each group", big.len(), sum_splits.len()));
+        lap(&t0, &sp.name);
+    }
+    let short_h: Vec<Vec<u8>> = ["https://h", "https://h/", "https://h/d/f", "HTTPS://H/d/f", "https://h/D/f", "https://ab/ab", "https://h/d/"].iter().map(|x| x.as_bytes().to_vec()).collect();
+    let sp = ctx.space("https.scale",
+        "https URIs whose authority, single path segment or number of path segments is 2^k-1, 2^k, 2^k+1 for k = 6..=17: each with a scheme flip, case flips at the first / middle / last octet of the long component, a child, its parent and 7 short URIs forms one group; unary oracles, all ordered pairs within the group (==, three hashers, eq_authority), joins with short and equally long arguments; non-trivial = ordered pairs of different members + successful non-empty joins");
+    {
+        let mut big: Vec<(Vec<u8>, Vec<usize>, usize)> = Vec::new();
+        for &l in &scale_lengths {
+            let p = pattern(l, false);
+            big.push(([&b"https://"[..], &p, b"/d/f"].concat(), vec![8, 8 + l / 2, 8 + l - 1], l));
+            big.push(([&b"https://h/"[..], &p].concat(), vec![10, 10 + l / 2, 10 + l - 1], l));
+            big.push(([&b"https://h/"[..], &seg_run(l)].concat(), vec![10, 10 + 2 * (l / 2), 10 + 2 * (l - 1)], 3));
+        }
+        let mut n_members = 0u64;
+        for (base, flips, arg_l) in &big {
+            let mut texts: Vec<Vec<u8>> = vec![base.clone()];
+            { let mut v = base.clone(); v[0] = b'H'; texts.push(v) }
+            for &i in flips { if let Some(v) = flip(base, i) { texts.push(v) } }
+            { let mut c = base.clone(); c.extend_from_slice(b"/zz"); texts.push(c) }
+            if let Some(cutp) = base.iter().rposition(|&b| b == b'/') { if cutp > 8 { texts.push(base[..cutp + 1].to_vec()) } }
+            texts.extend(short_h.iter().cloned());
+            { let mut seen = std::collections::BTreeSet::new(); texts.retain(|x| seen.insert(x.clone())); }
+            let mut fl = Fails::new(); let mut oc: Oc = BTreeMap::new(); let mut ok = Vec::new();
+            for t in &texts {
+                let wit = || format!("text={:?}", s(t));
+                sp.eval();
+                match guard(|| Https::from_slice(t)) {
+                    Err(p) => fl.fail("C12.https.parse.nopanic", &wit, || p),
+                    Ok(Err(_)) => bump(&mut oc, "large-uri-rejected"),
+                    Ok(Ok(u)) => { bump(&mut oc, "large-uri-accepted"); unary_https(&mut fl, t, &u, &wit, &mut oc); if model_https(t).is_ok() { ok.push(t.clone()) } }
+                }
+            }
+            fl.flush(&ctx); sp.merge_outcomes(&oc);
+            let hu = match guard(|| mk_hu(&ok)) { Ok(r) => r, Err(p) => { ctx.fail("C12.https.pair.nopanic", format!("group of text={:?}", s(base)), p); continue } };
+            https_pairs(&ctx, &sp, &hu);
+            let mut args: Vec<Vec<u8>> = vec![Vec::new(), b"x".to_vec(), b"x/".to_vec(), b"ab/cd".to_vec()];
+            if *arg_l > 3 { args.push(pattern(*arg_l, false)); args.push(seg_run(*arg_l / 2 + 1)) }
+            https_joins(&ctx, &sp, &hu, &args);
+            n_members += hu.len() as u64;
+        }
+        sp.set("groups", json!(big.len())); sp.set("members", json!(n_members));
+        sp.sample_str(|| "https://{a:65536}/d/f vs HTTPS://{a:65536}/d/f : equal, same write-call sequence into any Hasher".into());
+        sp.done(true, &format!("{} groups: 3 quantities x lengths 2^k-1..2^k+1 (k = 6..=17); all ordered pairs and joins within each group", big.len()));
         lap(&t0, &sp.name);
     }
     let suppressed = SUPPRESSED.load(AtomicOrdering::Relaxed);
